@@ -88,7 +88,10 @@ Seed5 == Seed1 \o <<A("parse_exec", "c0", "x1", "", "", 12), A("load", "c0", "p1
 \* F declared twice (two bodies), then a text declaring another function is rejected; callers are compiled afterwards
 Seed6 == Seed3 \o <<A("exec_free", "", "x2", "", "", 0), A("parse_exec", "c0", "x2", "", "", 31), A("parse_expr", "c0", "e1", "", "", 11)>>
 Seed7 == Seed3 \o <<A("exec_free", "", "x2", "", "", 0), A("parse_exec", "c0", "x2", "", "", 31), A("parse_expr", "c0", "e1", "", "", 12)>>
-Seeds == {<<>>, Seed1, Seed2, Seed3, Seed4, Seed5, Seed6, Seed7}
+\* a run that fails inside a handler, then texts that need a context at rest (a function declaration, a caller)
+Seed8 == Seed1 \o <<A("parse_exec", "c0", "x1", "", "", 79), A("run", "c0", "x1", "", "", 0), A("parse_exec", "c0", "x2", "", "", 20)>>
+Seed9 == Seed1 \o <<A("parse_exec", "c0", "x1", "", "", 80), A("run", "c0", "x1", "", "", 0), A("ctx_purge", "c0", "", "", "", 0), A("parse_exec", "c0", "x2", "", "", 13)>>
+Seeds == {<<>>, Seed1, Seed2, Seed3, Seed4, Seed5, Seed6, Seed7, Seed8, Seed9}
 
 Init == \E s \in Seeds : hist = s /\ m = Fold(M0, s) /\ nw = 0
 InitMC == \E s \in {<<>>, Seed2, Seed4} : hist = s /\ m = Fold(M0, s) /\ nw = 0
